@@ -97,8 +97,17 @@ pub fn check_project(ctx: &Ctx, n: u64, pv: &ProjView) -> (Vec<Violation>, Vec<V
     }
     let (r, _style) = cli::run_cli_any_style(&ctx.cli, &dir, &pv.root, &pv.files, &["generate", "--output-format", "json"], Duration::from_secs(120));
     if r.status != Some(0) {
+        // not a case of C06 (C18 / C04 own failures of valid projects) - except that a *valid* project whose `#import`
+        // lines do not find their files or fragments is C20's business: the target did not resolve to the file meant
+        for needle in ["not found.", "is not found in the imported file"] {
+            if let Some(l) = r.stdout.lines().chain(r.stderr.lines()).find(|l| l.contains(needle)) {
+                let class = if needle.starts_with("not") { "file-not-found" } else { "fragment-not-found-in-imported-file" };
+                v20.push(Violation { sig: format!("C20|e2e|import-of-a-valid-project-fails|{class}"), detail: format!("generate failed on a valid project: {}", clip(l, 300)), replay: replay20.clone() });
+                break;
+            }
+        }
         cli::cleanup(&dir);
-        return (v06, v20, 0, 0); // not a case of these properties (C18 / C04 own failures of valid projects)
+        return (v06, v20, 0, 0);
     }
     let Ok(out): Result<Value, _> = serde_json::from_str(r.stdout.trim()) else {
         cli::cleanup(&dir);
